@@ -246,6 +246,52 @@ def k2_closure(ctx):
     run.dist("k2", "closure-cases", len(cmds))
 
 
+def k2_lexer(ctx):
+    """Gql/Lex.v (the specification lexer of C02_tokens_preserved) vs graphql-core's Lexer on printed operations"""
+    from graphql import Lexer, Source, TokenKind
+
+    run = ctx.run
+    texts = []
+    base = ctx.seed * 100000 + 2000
+    for i in range(40 if ctx.thorough else 8):
+        s = make_base(base + 1000 + i)
+        if s:
+            d = G.decorate(s, base + i, adversarial=True, mixin_field=True, blocks=True) or s
+            texts.append(d.queries)
+    for i in range(20 if ctx.thorough else 6):
+        x = G.structured(base + 7000 + i)
+        if x:
+            texts.append(x.queries + "# a comment, with (punctuation) \"and quotes\"\n")
+    cmds = [[Sym("tokens"), t] for t in texts]
+    res = model.batch("C02", cmds)
+    for t, r in zip(texts, res):
+        run.count()
+        want = []
+        lx = Lexer(Source(t))
+        while True:
+            tk = lx.advance()
+            if tk.kind == TokenKind.EOF:
+                break
+            raw = t[tk.start:tk.end]
+            if tk.kind == TokenKind.SPREAD:
+                want.append(["spread"])
+            elif tk.kind == TokenKind.BLOCK_STRING:
+                want.append(["b", raw[3:-3]])
+            elif tk.kind == TokenKind.STRING:
+                want.append(["s", raw[1:-1]])
+            elif tk.kind in (TokenKind.NAME, TokenKind.INT, TokenKind.FLOAT):
+                want.append(["w", raw])
+            else:
+                want.append(["p", raw])
+        got = None if r == "none" else r[1]
+        if got != want:
+            i = next((k for k, (a, b) in enumerate(zip(got or [], want)) if a != b), min(len(got or []), len(want)))
+            run.broken("K2 lexer", f"Gql/Lex.v and graphql-core disagree at token {i}: {(got or [None])[i:i+2]} vs {want[i:i+2]} "
+                                   f"in {t[:200]!r}")
+        run.dist("k2", "lexer-documents")
+        run.dist("k2_tokens", "compared", len(want))
+
+
 # ====================================================================================== K1b + K3 documents
 def base_rep(g):
     return {"seed": g.sc.seed, "features": list(g.sc.features), "schema": g.sc.sdl, "queries": g.sc.queries,
@@ -660,6 +706,7 @@ def run(ctx):
     ]
     k1_multiline(ctx)
     k2_closure(ctx)
+    k2_lexer(ctx)
     documents(ctx)
     literals(ctx)
     run.sample({"safe_lines": ["query A($v: Int = 3) {", '  echo(s: "a # b = c")', "}"],
